@@ -88,11 +88,11 @@ contract(F, "Fiber.getPayload",
          per_case={
              "plain": dict(ensures=[
                  "forall(lambda k: implies(self.coords[k] == coord, result is self.payloads[k]), 0, len(self.coords))",
-                 "implies(forall(lambda k: self.coords[k] != coord, 0, len(self.coords)), fresh(result) and result.value == self.g_default)",
+                 "implies(forall(lambda k: self.coords[k] != coord, 0, len(self.coords)), fresh(result) and typeis(result, 'Payload') and result.value == self.g_default)",
                  "self._saved_pos == old(self._saved_pos)"]),
              "start_pos": dict(requires=[LEGAL_START], ensures=[
                  "forall(lambda k: implies(self.coords[k] == coord, result is self.payloads[k]), 0, len(self.coords))",
-                 "implies(forall(lambda k: self.coords[k] != coord, 0, len(self.coords)), fresh(result) and result.value == self.g_default)",
+                 "implies(forall(lambda k: self.coords[k] != coord, 0, len(self.coords)), fresh(result) and typeis(result, 'Payload') and result.value == self.g_default)",
                  "implies(not isnone(start_pos), " + " and ".join("(%s)" % x for x in SAVED_POS) + ")"]),
              "noalloc": dict(requires=[LEGAL_START, "not allocate"], ensures=[
                  "forall(lambda k: implies(self.coords[k] == coord, (not isnone(result)) and val(result) is self.payloads[k]), 0, len(self.coords))",
@@ -142,7 +142,12 @@ contract(F, "Fiber.getPayloadRef",
              "exists(lambda r: 0 <= r < len(self.coords) and self.coords[r] == coord and result is self.payloads[r], witness=[final(index)])",
              "implies(old(member(coord, self.coords)), unchanged_list(self.coords) and unchanged_list(self.payloads))",
              "implies(not old(member(coord, self.coords)), len(self.coords) == old(len(self.coords)) + 1 and fresh(result) and result.value == self.g_default and "
-             + INSERTED % "index" + ")"]})
+             + INSERTED % "index" + ")",
+             # membership-level consequences (what callers compose): nothing stored is lost or re-boxed, nothing but coord is added
+             "forall(lambda i: exists(lambda j: 0 <= j and j < len(self.coords) and self.coords[j] == old(self.coords[i]) and self.payloads[j] is old(self.payloads[i]), "
+             "witness=[i, i + 1]), 0, old(len(self.coords)))",
+             "forall(lambda j: self.coords[j] == coord or exists(lambda i: 0 <= i and i < old(len(self.coords)) and old(self.coords[i]) == self.coords[j] "
+             "and old(self.payloads[i]) is self.payloads[j], witness=[j, j - 1]), 0, len(self.coords))"]})
 
 contract(F, "Fiber.getPosition",
          cases=[dict(self="Fiber", coord="int"), dict(self="Fiber", coord="int", start_pos="opt[int]")],
@@ -207,3 +212,25 @@ contract(F, "Fiber.isEmpty", verify=False, tier="B", types=dict(self="Fiber"), r
 contract(F, "Fiber.getShape", verify=False, tier="T",
          cases=[dict(self="Fiber", all_ranks="bool", authoritative="bool")], returns="opt[int]", modifies=[],
          note="shape through owner/rank attrs delegation; used by populate only for trace positions")
+
+# ---------------------------------------------------------------- constructor checks (C01: constructors establish WF or raise)
+contract(F, "Fiber._checkOrdered", types=dict(self="Fiber"), returns="opt[bool]",
+         requires=["self._ordered"],
+         raises={"AssertionError": dict(when="not sorted_strict(self.coords)")},
+         modifies=[],
+         ensures={"C01": ["sorted_strict(self.coords)"]},
+         loops={0: dict(types={"c": "int", "last": "int"},
+                        invariant=["coords is self.coords", "len(coords) > 0",
+                                   "sorted_strict(coords, 0, _i0 + 1)", "last == coords[_i0]"])},
+         note="an ordered fiber leaves the constructor's check only with strictly increasing coordinates; otherwise AssertionError")
+
+contract(F, "Fiber._checkUnique", types=dict(self="Fiber"), returns="opt[bool]",
+         requires=["self._ordered", "self._unique"],
+         raises={"AssertionError": dict(when="exists(lambda k: 0 <= k and k + 1 < len(self.coords) and self.coords[k] == self.coords[k + 1])")},
+         modifies=[],
+         ensures={"C01": ["forall(lambda k: self.coords[k] != self.coords[k + 1], 0, len(self.coords) - 1)"]},
+         loops={0: dict(types={"c": "int", "last": "opt[int]"},
+                        invariant=["coords is self.coords",
+                                   "forall(lambda k: coords[k] != coords[k + 1], 0, _i0 - 1)",
+                                   "(_i0 == 0 and isnone(last)) or (_i0 > 0 and not isnone(last) and val(last) == coords[_i0 - 1])"])},
+         note="adjacent duplicates are rejected (for an ordered fiber duplicates are adjacent)")
